@@ -167,6 +167,58 @@ def shape_twop(v):
   return d
 
 
+def shape_styled(v):
+  """styles that the SRT / WebVTT writers turn into tags, one of them animated: p [pb, pe) > span bold 'B', span italic+underline 'I'
+  > span red 'R', span 'A' with set(color lime, [ab, ae)), span on blue 'G', br, span oblique bold-then-normal 'N'"""
+  d = m.ContentDocument()
+  r = m.Region("r1", d); d.put_region(r)
+  body = m.Body(d); body.set_id("b"); d.set_body(body)
+  div = m.Div(d); div.set_id("d"); div.set_region(r); body.push_child(div)
+  p = m.P(d); p.set_id("p"); p.set_begin(v("pb")); p.set_end(v("pe")); div.push_child(p)
+
+  def span(i, parent, text, **styles):
+    e = m.Span(d); e.set_id(i); parent.push_child(e)
+    for k, val in styles.items():
+      e.set_style(getattr(SP, k), val)
+    if text is not None:
+      e.push_child(m.Text(d, text))
+    return e
+
+  span("s0", p, "C", Color=sp.NamedColors.blue.value)       # the same colour value is used below as a background
+  span("s1", p, "B", FontWeight=sp.FontWeightType.bold)
+  s2 = span("s2", p, "I", FontStyle=sp.FontStyleType.italic, TextDecoration=sp.TextDecorationType(underline=True))
+  span("s3", s2, "R", Color=sp.NamedColors.red.value)
+  s4 = span("s4", p, "A")
+  s4.add_animation_step(m.DiscreteAnimationStep(SP.Color, v("ab"), v("ae"), sp.NamedColors.lime.value))
+  span("s5", p, "G", BackgroundColor=sp.NamedColors.blue.value)
+  br = m.Br(d); br.set_id("br"); p.push_child(br)
+  s6 = span("s6", p, None, FontWeight=sp.FontWeightType.bold, FontStyle=sp.FontStyleType.oblique)
+  span("s7", s6, "N", FontWeight=sp.FontWeightType.normal, TextDecoration=sp.TextDecorationType(underline=False, line_through=True))
+  return d
+
+
+def shape_moving(v):
+  """a region that moves: displayAlign set to `after` over [ab, ae), origin set to the lower half over [ob, oe); two paragraphs, the second from 2 s"""
+  from fractions import Fraction as F
+  L, U = sp.LengthType, sp.LengthType.Units
+  d = m.ContentDocument()
+  r = m.Region("r1", d); d.put_region(r)
+  r.set_style(SP.Origin, sp.CoordinateType(x=L(10, U.pct), y=L(10, U.pct)))
+  r.set_style(SP.Extent, sp.ExtentType(height=L(20, U.pct), width=L(80, U.pct)))
+  r.set_style(SP.DisplayAlign, sp.DisplayAlignType.before)
+  r.add_animation_step(m.DiscreteAnimationStep(SP.DisplayAlign, v("ab"), v("ae"), sp.DisplayAlignType.after))
+  ob, oe = v("ob"), v("oe")
+  if ob is not None or oe is not None:
+    r.add_animation_step(m.DiscreteAnimationStep(SP.Origin, ob, oe, sp.CoordinateType(x=L(10, U.pct), y=L(60, U.pct))))
+  body = m.Body(d); body.set_id("b"); d.set_body(body)
+  div = m.Div(d); div.set_id("d"); div.set_region(r); body.push_child(div)
+  p = m.P(d); p.set_id("p1"); p.set_end(F(2)); div.push_child(p)
+  s = m.Span(d); s.set_id("s1"); p.push_child(s); s.push_child(m.Text(d, "one"))
+  p2 = m.P(d); p2.set_id("p2"); p2.set_begin(F(2)); p2.set_end(v("p2e")); p2.set_style(SP.TextAlign, sp.TextAlignType.end); div.push_child(p2)
+  s2 = m.Span(d); s2.set_id("s2"); p2.push_child(s2); s2.push_child(m.Text(d, "two"))
+  return d
+
+
 def shape_rubyparts(v):
   """rubies whose parts have their own timing (an annotation that is temporarily inactive), an rtc with delimiters, a part in another region"""
   nid = _ids()
@@ -200,9 +252,11 @@ def shape_rubyparts(v):
   return d
 
 
-SHAPES = {"twop": shape_twop, "brset": shape_brset, "rubyparts": shape_rubyparts, "ruby": shape_ruby, "nested": shape_nested, "regions": shape_regions, "display": shape_display, "background": shape_background}
+SHAPES = {"moving": shape_moving, "styled": shape_styled, "twop": shape_twop, "brset": shape_brset, "rubyparts": shape_rubyparts, "ruby": shape_ruby, "nested": shape_nested, "regions": shape_regions, "display": shape_display, "background": shape_background}
 # which of the timing variables are present (None otherwise); a few masks per shape keep the path count moderate
 MASKS = {
+  "moving": [("ab", "ae"), ("ob", "oe")],
+  "styled": [("ab", "ae"), ("pe", "ab")],
   "twop": [("b1", "e1"), ("e1", "b2"), ("b1", "e2")],
   "brset": [("pb", "pe", "ab", "ae"), ("ab", "ae"), ("pe", "ab")],
   "rubyparts": [("rtb", "rte", "pb"), ("rbb", "rbe", "rtb"), ("rtcb", "rtce", "rt2b"), ("rp1e", "rt2b", "rt2e"), ("pe", "rte", "rbe", "rtce")],
